@@ -182,8 +182,17 @@ func (fr *Frame) applyContract(cx *callCtx, con *Contract) []Term {
 		if len(con.Except) > 0 {
 			exc = env.resolveModifies(con.Except)
 		}
+		var calleePkg *types.Package
+		if callee != nil && callee.Pkg != nil {
+			calleePkg = callee.Pkg.Pkg
+		}
 		for c := range e.compSort {
 			if !strings.HasPrefix(c, "$") {
+				if e.invisibleTo(c, calleePkg) {
+					// the callee's package cannot name the cell's type (no import path to it)
+					vc.assumes["a function does not write cells whose type belongs to a karpenter package its own package does not import (no reflection / unsafe writes)"] = true
+					continue
+				}
 				e.havocComp(cx.st, c)
 			}
 		}
